@@ -1,4 +1,5 @@
 #!/bin/bash
+V="$(cd "$(dirname "$(readlink -f "$0")")/.." && pwd)"
 # usage: tools/check_refactor.sh <patch.diff> <budget-s> <PROP> [<PROP>...]
 # applies a behaviour-preserving patch to a scratch copy of /repo and expects every named check to stay silent
 patch="$1"; budget="$2"; shift 2
@@ -7,7 +8,7 @@ cp -r /repo/ak "$tmp/ak"
 ( cd "$tmp" && patch -p1 -s < "$patch" ) || { echo "PATCH-FAILED $patch"; rm -rf "$tmp"; exit 2; }
 rc=0
 for p in "$@"; do
-  out=$(cd /verif && AK_REPO="$tmp" timeout 900 ./vcheck "$p" --budget-s "$budget" 2>&1); r=$?
+  out=$(cd "$V" && AK_REPO="$tmp" timeout 900 ./vcheck "$p" --budget-s "$budget" 2>&1); r=$?
   if [ $r -eq 0 ]; then echo "  $p silent ($(echo "$out" | grep -o 'runs=[0-9]*' | tail -1))"; else echo "  $p ALARM rc=$r"; echo "$out" | grep -E "violated:|ERROR" | cut -c1-400 | head -5; rc=1; fi
 done
 rm -rf "$tmp"
